@@ -315,6 +315,10 @@ class ElectionProfile:
             self._bltParse(data)
         except StopIteration:
             raise ElectionProfileError('bad blt file: unexpected end-of-file')
+        except (ValueError, OverflowError) as err:
+            # int() rejects digit strings beyond the interpreter's conversion limit, and
+            # array.array rejects candidate IDs that do not fit its item type
+            raise ElectionProfileError('bad blt file: number out of range near line %d (%s)' % (self.lineNumber, err))
 
     def _bltParse(self, data):
         '''
